@@ -470,15 +470,65 @@ func init() {
 					return true
 				}
 				r.Site(call.Pos(), "fetcher stores its result under the reserved number")
-				seqDef := resolveLocal(fi, fl.Decl.Body, call.Args[0])
-				resDef := resolveLocal(fi, fl.Decl.Body, call.Args[1])
-				c1, ok1 := ast.Unparen(seqDef).(*ast.CallExpr)
-				c2, ok2 := ast.Unparen(resDef).(*ast.CallExpr)
-				if ok1 && ok2 && r.P.CalleeFunc(fi, c1) == reserveFn && prog.SelField(fi, c2.Fun) == fetch && len(c2.Args) == 2 {
-					evDef := resolveLocal(fi, fl.Decl.Body, c2.Args[1])
-					if c3, ok := ast.Unparen(evDef).(*ast.CallExpr); ok && r.P.CalleeFunc(fi, c3) == flushFn {
-						okIdent = true
+				// every definition of the variable (anywhere in flush, closures included) is a call of fn;
+				// a `var x T` without value is a placeholder. One level of immediately invoked closure is
+				// followed: its returned variable must satisfy the same condition.
+				var allDefsCall func(e ast.Expr, fn *types.Func, depth int) bool
+				allDefsCall = func(e ast.Expr, fn *types.Func, depth int) bool {
+					e = ast.Unparen(e)
+					if c, ok := e.(*ast.CallExpr); ok {
+						if r.P.CalleeFunc(fi, c) == fn {
+							return true
+						}
+						if lit, ok := ast.Unparen(c.Fun).(*ast.FuncLit); ok && depth < 2 {
+							okAll, n := true, 0
+							ast.Inspect(lit.Body, func(m ast.Node) bool {
+								if inner, ok := m.(*ast.FuncLit); ok && inner != lit {
+									return false
+								}
+								if ret, ok := m.(*ast.ReturnStmt); ok && len(ret.Results) == 1 {
+									n++
+									if !allDefsCall(ret.Results[0], fn, depth+1) {
+										okAll = false
+									}
+								}
+								return true
+							})
+							return okAll && n > 0
+						}
+						return false
 					}
+					obj := prog.IdentObj(fi, e)
+					if obj == nil {
+						return false
+					}
+					n, okAll := 0, true
+					ast.Inspect(fl.Decl.Body, func(m ast.Node) bool {
+						if as, ok := m.(*ast.AssignStmt); ok {
+							for i, l := range as.Lhs {
+								if prog.IdentObj(fi, l) != obj {
+									continue
+								}
+								var rhs ast.Expr
+								if len(as.Lhs) == len(as.Rhs) {
+									rhs = as.Rhs[i]
+								} else if len(as.Rhs) == 1 {
+									rhs = as.Rhs[0]
+								}
+								n++
+								if rhs == nil || !allDefsCall(rhs, fn, depth+1) {
+									okAll = false
+								}
+							}
+						}
+						return true
+					})
+					return okAll && n > 0
+				}
+				resDef := resolveLocal(fi, fl.Decl.Body, call.Args[1])
+				c2, ok2 := ast.Unparen(resDef).(*ast.CallExpr)
+				if allDefsCall(call.Args[0], reserveFn, 0) && ok2 && prog.SelField(fi, c2.Fun) == fetch && len(c2.Args) == 2 && allDefsCall(c2.Args[1], flushFn, 0) {
+					okIdent = true
 				}
 				return true
 			})
